@@ -29,6 +29,7 @@ import (
 	"math/rand"
 	"sort"
 	"strings"
+	"syscall"
 	"time"
 
 	"github.com/bnb-chain/tss-lib/v2/crypto"
@@ -73,9 +74,10 @@ type hStep struct {
 }
 
 type hHist struct {
-	Kinds   []hKind  `json:"kinds"`
-	Steps   []hStep  `json:"steps"`
-	Exposes []string `json:"exposes"`
+	Kinds   []hKind             `json:"kinds"`
+	Steps   []hStep             `json:"steps"`
+	Remote  []map[string]string `json:"remote"` // the remote verifier's outcome for every item, per variant
+	Exposes []string            `json:"exposes"`
 }
 
 type hRow struct {
@@ -107,6 +109,8 @@ func hCfg(nbufs, nkinds int, stms, hds string, maxOps int, emit string, twoPhase
 
 type hMCOut struct {
 	Res      tlc.Result
+	Wide     *tlc.Result // thorough: two buffers
+	WideDone chan error
 	Variants []hVariantRow
 	Directed []hHist
 	Rows     []hRow
@@ -116,41 +120,63 @@ type hMCOut struct {
 // c10HistMC: exhaustive exploration of the short histories (all variants side by side): the code as read accepts every
 // honest verification, every defect variant is exposed by some history (non-vacuity); prints the directed histories and
 // the handle catalogue.
-func c10HistMC(thorough bool) (hMCOut, error) {
-	var out hMCOut
+func c10HistMC(thorough bool) (out hMCOut, err error) {
 	name := "MCH_ProofsHist"
 	nbufs, hds := 1, `{"mem", "fresh"}`
-	if thorough {
-		nbufs, hds = 2, `{"mem", "fresh", "reg"}`
-	}
 	out.Bounds = fmt.Sprintf("NBufs=%d, Sess={<<1,1>>,<<1,2>>,<<2,1>>}, one tagged kind on a multi-handle curve, Stms={own,slot}, Hds=%s, MaxOps=4", nbufs, hds)
-	cfg := hCfg(nbufs, 1, `{"own", "slot"}`, hds, 4, "directed", false, "INVARIANTS TypeOK CodeSound Honest Witness Emit\nPOSTCONDITION Post\n")
-	r := tlc.Run(tlc.Options{Module: name, Cfg: cfg, Workers: 1, Heap: "3g", Timeout: 30 * time.Minute,
+	out.WideDone = make(chan error, 1)
+	if thorough {
+		// the same exploration with two buffers (no printing; non-vacuity through the specification's own registers, one
+		// worker); runs on while the directed histories are replayed, the phase waits for it at its end
+		out.Wide = &tlc.Result{}
+		go func(res *tlc.Result, done chan error) {
+			cfg := hCfg(2, 1, `{"own", "slot"}`, hds, 4, "none", false, "INVARIANTS TypeOK CodeSound Honest Witness\nPOSTCONDITION Post\n")
+			r := tlc.Run(tlc.Options{Module: name, Cfg: cfg, Workers: 1, Heap: "4g", Timeout: 60 * time.Minute,
+				Files: map[string]string{name + ".tla": hWrapper(name, "{<<1,1>>, <<1,2>>, <<2,1>>}", `{[tg |-> TRUE, cv |-> "multi"]}`)}})
+			*res = r
+			switch {
+			case r.Err != nil:
+				done <- r.Err
+			case !r.OK:
+				done <- fmt.Errorf("ProofsHist (two buffers) violates %s:\n%s", r.Violated, r.ErrorTrace(1500))
+			default:
+				done <- nil
+			}
+		}(out.Wide, out.WideDone)
+	} else {
+		out.WideDone <- nil
+	}
+	// several workers: the non-vacuity registers of the specification (Witness / Post) are per worker, so exposure is
+	// read off the printed directed histories instead (every variant must have some)
+	cfg := hCfg(nbufs, 1, `{"own", "slot"}`, hds, 4, "directed", false, "INVARIANTS TypeOK CodeSound Honest Emit\nPOSTCONDITION PostHandles\n")
+	r := tlc.Run(tlc.Options{Module: name, Cfg: cfg, Workers: 3, Heap: "3g", Timeout: 30 * time.Minute,
 		Files: map[string]string{name + ".tla": hWrapper(name, "{<<1,1>>, <<1,2>>, <<2,1>>}", `{[tg |-> TRUE, cv |-> "multi"]}`)}})
 	out.Res = r
 	if r.Err != nil {
 		return out, r.Err
 	}
-	vs, err := pcPrinted(r.Output, "VARIANTS")
-	if err != nil || len(vs) != 1 {
-		return out, fmt.Errorf("no VARIANTS line (%v)", err)
-	}
-	if err := json.Unmarshal([]byte(vs[0]), &out.Variants); err != nil {
-		return out, err
-	}
 	if !r.OK {
-		return out, fmt.Errorf("ProofsHist violates %s (variants %s):\n%s", r.Violated, vs[0], r.ErrorTrace(1500))
+		return out, fmt.Errorf("ProofsHist violates %s:\n%s", r.Violated, r.ErrorTrace(1500))
 	}
 	hs, err := pcPrinted(r.Output, "HISTORY")
 	if err != nil {
 		return out, err
 	}
+	sort.Strings(hs)
+	seen := map[string]bool{}
 	for _, s := range hs {
 		var h hHist
 		if err := json.Unmarshal([]byte(s), &h); err != nil {
 			return out, fmt.Errorf("cannot parse a history printed by TLC: %v", err)
 		}
+		for _, v := range h.Exposes {
+			seen[v] = true
+		}
 		out.Directed = append(out.Directed, h)
+	}
+	out.Variants = []hVariantRow{{"code", seen["code"]}}
+	for _, v := range hVariants {
+		out.Variants = append(out.Variants, hVariantRow{v, seen[v]})
 	}
 	rs, err := pcPrinted(r.Output, "HROW")
 	if err != nil {
@@ -164,7 +190,6 @@ func c10HistMC(thorough bool) (hMCOut, error) {
 		out.Rows = append(out.Rows, row)
 	}
 	sort.Slice(out.Rows, func(a, b int) bool { return pcJSON(out.Rows[a]) < pcJSON(out.Rows[b]) })
-	sort.Slice(out.Directed, func(a, b int) bool { return pcJSON(out.Directed[a]) < pcJSON(out.Directed[b]) })
 	if len(out.Directed) == 0 || len(out.Rows) == 0 {
 		return out, fmt.Errorf("TLC printed %d directed histories and %d handle rows", len(out.Directed), len(out.Rows))
 	}
@@ -213,6 +238,7 @@ type hStmt struct {
 	Ints []*big.Int
 	Pts  []*crypto.ECPoint
 	Ec   elliptic.Curve
+	Pk   *paillier.PublicKey // slot discipline: ONE key object whose modulus is Ints[0], overwritten in place with it
 }
 
 type hEnv struct {
@@ -231,7 +257,12 @@ type hSys struct {
 	pfCurves func(pf any) []elliptic.Curve // the curve handles the proof object carries
 }
 
-func hPk(st hStmt) *paillier.PublicKey { return &paillier.PublicKey{N: st.Ints[0]} }
+func hPk(st hStmt) *paillier.PublicKey {
+	if st.Pk != nil && st.Pk.N == st.Ints[0] {
+		return st.Pk
+	}
+	return &paillier.PublicKey{N: st.Ints[0]}
+}
 
 func hArr(bz [][]byte, n int) ([][]byte, error) {
 	if len(bz) != n {
@@ -644,6 +675,84 @@ func (e *hEmu) handlesOK(sys *hSys, st hStmt, pf any) bool {
 	return true
 }
 
+// ------------------------------------------------------------------ items as they travel to the remote verifier
+
+type hExport struct {
+	Sys   string      `json:"sys"`
+	Curve string      `json:"curve"` // secp256k1 | ed25519 | -
+	Ints  []string    `json:"ints"`  // statement integers, hex
+	Pts   [][2][]byte `json:"pts"`   // statement points, coordinates big endian
+	Wire  [][]byte    `json:"wire"`
+	Sess  []byte      `json:"sess"`
+}
+
+func hCurveName(cv *pcCurve) string {
+	switch cv {
+	case nil:
+		return "-"
+	case pcEd:
+		return "ed25519"
+	}
+	return "secp256k1"
+}
+
+func hExportItem(it *hItem) hExport {
+	e := hExport{Sys: it.sys.name, Curve: hCurveName(it.cv), Sess: append([]byte{}, it.sess...)}
+	for _, x := range it.st.Ints {
+		e.Ints = append(e.Ints, x.Text(16))
+	}
+	for _, p := range it.st.Pts {
+		e.Pts = append(e.Pts, [2][]byte{p.X().Bytes(), p.Y().Bytes()})
+	}
+	for _, w := range it.wire {
+		e.Wire = append(e.Wire, append([]byte{}, w...))
+	}
+	return e
+}
+
+// hRemoteVerify: what a verifier in another process does with a received item: everything restored from bytes into
+// objects of its own, every curve handle obtained anew. emu (self test only) wraps the session.
+func hRemoteVerify(e hExport, emu *hEmu) (out string, detail string) {
+	sys := hSystems[e.Sys]
+	if sys == nil {
+		return "inconcl", "unknown system " + e.Sys
+	}
+	var cv *pcCurve
+	if e.Curve != "-" {
+		cv = c10Curve(e.Curve)
+	}
+	st := hStmt{}
+	for _, t := range e.Ints {
+		x, ok := new(big.Int).SetString(t, 16)
+		if !ok {
+			return "inconcl", "bad integer"
+		}
+		st.Ints = append(st.Ints, x)
+	}
+	for _, c := range e.Pts {
+		p, err := crypto.NewECPoint(hFresh(cv), new(big.Int).SetBytes(c[0]), new(big.Int).SetBytes(c[1]))
+		if err != nil {
+			return "rej", "a statement point cannot be restored from its coordinates: " + err.Error()
+		}
+		st.Pts = append(st.Pts, p)
+	}
+	var ec elliptic.Curve
+	if cv != nil {
+		st.Ec, ec = hFresh(cv), hFresh(cv)
+	}
+	var pf any
+	var err error
+	if pan := pcCall(func() { pf, err = sys.fromWire(e.Wire, ec) }); pan != "" || err != nil {
+		return "rej", fmt.Sprintf("the wire parts cannot be parsed back: %v %s", err, core.Short(pan, 120))
+	}
+	sess := append(make([]byte, 0, len(e.Sess)), e.Sess...)
+	out, pan := pcGuard(func() bool { return sys.verify(pf, emu.session(sess), st) })
+	if out == "acc" && !emu.handlesOK(sys, st, pf) {
+		out = "rej"
+	}
+	return out, pan
+}
+
 // ------------------------------------------------------------------ replay of one history at real size
 
 type c10HistScenario struct {
@@ -652,6 +761,7 @@ type c10HistScenario struct {
 	Src  string   `json:"src,omitempty"` // directed | simulated
 	Sys  []string `json:"sys,omitempty"` // concrete system of every kind
 	W    int      `json:"w,omitempty"`   // bytes per session element
+	Lead bool     `json:"lead,omitempty"` // the element's value is the FIRST byte of its block (else the last)
 	Row  *hRow    `json:"row,omitempty"`
 	I    int      `json:"i"`
 	J    int      `json:"j"`
@@ -663,7 +773,7 @@ func (s c10HistScenario) key() string {
 	if s.Type == "handles" {
 		return fmt.Sprintf("handles|%s|%s|%s|%d,%d", s.Row.Sys, s.Row.Curve, strings.Join(s.Row.Asg, ","), s.I, s.J)
 	}
-	return fmt.Sprintf("history|%s|%s|w%d|%d,%d|%d|emu=%s", s.Src, strings.Join(s.Sys, "+"), s.W, s.I, s.J, s.Seed, s.Emu)
+	return fmt.Sprintf("history|%s|%s|w%d%v|%d,%d|%d|emu=%s", s.Src, strings.Join(s.Sys, "+"), s.W, s.Lead, s.I, s.J, s.Seed, s.Emu)
 }
 
 type c10HistResult struct {
@@ -679,19 +789,36 @@ type c10HistResult struct {
 	Outs     []string        `json:"outs,omitempty"`
 	EmuDiff  []string        `json:"emu_diff,omitempty"`
 	Distinct [][2]int        `json:"distinct,omitempty"` // handle rows: role pairs whose handles are different objects
+	Exports  []hExport       `json:"exports,omitempty"`  // every item as it travels to the remote verifier
+	Remote   []string        `json:"remote,omitempty"`   // the remote verifier's outcomes
 	Seconds  float64         `json:"seconds"`
+	CPU      float64         `json:"cpu_s"` // process CPU time (meaningful in the sequential child processes)
 }
 
-// hSessBytes widens a model session to real bytes: element x at position p -> w bytes, the last of which is x
-func hSessBytes(s []int, w int) []byte {
+// hSessBytes widens a model session to real bytes: element x at position p -> a block of w bytes: filler that depends on
+// p only, and x as the last byte (ssid||1 vs ssid||2) or, with lead, as the first byte (sessions that differ early)
+func hSessBytes(s []int, w int, lead bool) []byte {
 	out := make([]byte, 0, len(s)*w)
 	for p, x := range s {
+		if lead {
+			out = append(out, byte(x))
+		}
 		for k := 0; k < w-1; k++ {
 			out = append(out, byte(0xA0+p))
 		}
-		out = append(out, byte(x))
+		if !lead {
+			out = append(out, byte(x))
+		}
 	}
 	return out
+}
+
+func hCPU() float64 {
+	var ru syscall.Rusage
+	if syscall.Getrusage(syscall.RUSAGE_SELF, &ru) != nil {
+		return 0
+	}
+	return float64(ru.Utime.Sec+ru.Stime.Sec) + float64(ru.Utime.Usec+ru.Stime.Usec)/1e6
 }
 
 type hItem struct {
@@ -705,9 +832,9 @@ type hItem struct {
 }
 
 func c10HistRun(sc c10HistScenario, keys []eckg.LocalPartySaveData) (res c10HistResult) {
-	t0 := time.Now()
+	t0, c0 := time.Now(), hCPU()
 	res.Sc = sc
-	defer func() { res.Seconds = time.Since(t0).Seconds() }()
+	defer func() { res.Seconds, res.CPU = time.Since(t0).Seconds(), hCPU()-c0 }()
 	defer func() {
 		if r := recover(); r != nil {
 			res.Inconcl = fmt.Sprintf("harness panic while replaying: %v", r)
@@ -759,7 +886,7 @@ func c10HistRun(sc c10HistScenario, keys []eckg.LocalPartySaveData) (res c10Hist
 			return
 		}
 		sys, cv := syss[k], cvs[k]
-		want := hSessBytes(st.Sess, sc.W)
+		want := hSessBytes(st.Sess, sc.W, sc.Lead)
 		// ---- the caller prepares its buffer
 		switch st.How {
 		case "new":
@@ -784,7 +911,7 @@ func c10HistRun(sc c10HistScenario, keys []eckg.LocalPartySaveData) (res c10Hist
 				}
 				continue
 			}
-			if !bytes.Equal(bufs[b], hSessBytes(st.Mem[b-1], sc.W)) {
+			if !bytes.Equal(bufs[b], hSessBytes(st.Mem[b-1], sc.W, sc.Lead)) {
 				res.Inconcl = fmt.Sprintf("step %d: buffer %d does not hold what the model's heap holds", n+1, b)
 				return
 			}
@@ -906,6 +1033,9 @@ func c10HistRun(sc c10HistScenario, keys []eckg.LocalPartySaveData) (res c10Hist
 					for range stv.Pts {
 						s.Pts = append(s.Pts, new(crypto.ECPoint))
 					}
+					if len(s.Ints) > 0 {
+						s.Pk = &paillier.PublicKey{N: s.Ints[0]}
+					}
 					slots[k] = s
 				}
 				s := slots[k]
@@ -969,6 +1099,25 @@ func c10HistRun(sc c10HistScenario, keys []eckg.LocalPartySaveData) (res c10Hist
 			return
 		}
 	}
+	if len(h.Remote) != len(items) {
+		res.Inconcl = "the history does not say what the remote verifier does with every item"
+		return
+	}
+	if emu == nil {
+		for _, it := range items {
+			res.Exports = append(res.Exports, hExportItem(it))
+		}
+		return
+	}
+	// self test: the remote verifier under the same emulated variant, with hidden state of its own
+	remu := &hEmu{v: emu.v, w: emu.w}
+	for i, it := range items {
+		out, detail := hRemoteVerify(hExportItem(it), remu)
+		res.Remote = append(res.Remote, out)
+		if want := h.Remote[i][emu.v]; want != out {
+			res.EmuDiff = append(res.EmuDiff, fmt.Sprintf("remote verifier, item %d: the model predicts %q for variant %s, the emulation around the real code gives %q %s", i+1, want, emu.v, out, detail))
+		}
+	}
 	return
 }
 
@@ -985,7 +1134,7 @@ func c10HandleRun(sc c10HistScenario, keys []eckg.LocalPartySaveData, res *c10Hi
 	env := &hEnv{A: keys[sc.I], B: keys[sc.J]}
 	rng := rand.New(rand.NewSource(sc.Seed))
 	lib := pump.NewDRBG(sc.Seed ^ 0xc10b)
-	sess := hSessBytes([]int{1, 2}, 16)
+	sess := hSessBytes([]int{1, 2}, 16, false)
 	ctxs := fmt.Sprintf("%s on %s, handles by role: %s", row.Sys, row.Curve, hAsgText(row))
 	var st hStmt
 	var wit, pf any
@@ -1119,20 +1268,39 @@ func hAsgText(r *hRow) string {
 
 // ------------------------------------------------------------------ child processes
 
+type hWorkerJob struct {
+	Run   []c10HistScenario `json:"run,omitempty"`
+	Sweep [][]hExport       `json:"sweep,omitempty"` // per history: its items
+}
+
+type hWorkerOut struct {
+	Run   []c10HistResult `json:"run,omitempty"`
+	Sweep [][][2]string   `json:"sweep,omitempty"` // per history, per item: outcome, detail
+}
+
 func c10HistWorker(args []string) int {
 	keys, err := pump.LoadEcFixtures(5)
 	return sandbox.ChildMain(args, func(p json.RawMessage) (any, error) {
 		if err != nil {
 			return nil, fmt.Errorf("cannot load the vendored parameter sets: %v", err)
 		}
-		var batch []c10HistScenario
-		if err := json.Unmarshal(p, &batch); err != nil {
+		var job hWorkerJob
+		if err := json.Unmarshal(p, &job); err != nil {
 			return nil, err
 		}
-		out := make([]c10HistResult, len(batch))
-		for i, sc := range batch {
-			out[i] = c10HistRun(sc, keys)
-			out[i].Sc = c10HistScenario{} // the parent has it
+		var out hWorkerOut
+		for _, sc := range job.Run {
+			r := c10HistRun(sc, keys)
+			r.Sc = c10HistScenario{} // the parent has it
+			out.Run = append(out.Run, r)
+		}
+		for _, items := range job.Sweep {
+			var rs [][2]string
+			for _, e := range items {
+				o, d := hRemoteVerify(e, nil)
+				rs = append(rs, [2]string{o, d})
+			}
+			out.Sweep = append(out.Sweep, rs)
 		}
 		return out, nil
 	})
@@ -1140,31 +1308,104 @@ func c10HistWorker(args []string) int {
 
 // c10HistRunAll runs the batches in child processes (one process per batch chunk, sequential inside).
 func c10HistRunAll(batches [][]c10HistScenario, parallel int) ([][]c10HistResult, error) {
-	cases := make([]sandbox.Case, len(batches))
-	for i, b := range batches {
-		bz, _ := json.Marshal(b)
-		cases[i] = sandbox.Case{ID: fmt.Sprintf("batch-%03d", i), Payload: bz}
+	run := func(jobs []hWorkerJob) ([]hWorkerOut, error) {
+		cases := make([]sandbox.Case, len(jobs))
+		for i, j := range jobs {
+			bz, _ := json.Marshal(j)
+			cases[i] = sandbox.Case{ID: fmt.Sprintf("batch-%03d", i), Payload: bz}
+		}
+		rs, err := sandbox.Run("c10-hist-worker", cases, parallel, 20*time.Minute)
+		if err != nil {
+			return nil, err
+		}
+		outs := make([]hWorkerOut, len(jobs))
+		for i, r := range rs {
+			if r.Status != "ok" {
+				return nil, fmt.Errorf("history batch %d: child process status %s: %s", i, r.Status, core.Short(r.Detail, 400))
+			}
+			if err := json.Unmarshal(r.Output, &outs[i]); err != nil {
+				return nil, err
+			}
+		}
+		return outs, nil
 	}
-	rs, err := sandbox.Run("c10-hist-worker", cases, parallel, 20*time.Minute)
+	jobs := make([]hWorkerJob, len(batches))
+	for i, b := range batches {
+		jobs[i].Run = b
+	}
+	outs, err := run(jobs)
 	if err != nil {
 		return nil, err
 	}
 	out := make([][]c10HistResult, len(batches))
-	for i, r := range rs {
-		if r.Status != "ok" {
-			return nil, fmt.Errorf("history batch %d: child process status %s: %s", i, r.Status, core.Short(r.Detail, 400))
-		}
-		if err := json.Unmarshal(r.Output, &out[i]); err != nil {
-			return nil, err
-		}
+	sweeps := make([]hWorkerJob, len(batches))
+	for i := range outs {
+		out[i] = outs[i].Run
 		if len(out[i]) != len(batches[i]) {
 			return nil, fmt.Errorf("history batch %d: %d results for %d scenarios", i, len(out[i]), len(batches[i]))
 		}
 		for j := range out[i] {
 			out[i][j].Sc = batches[i][j]
+			sweeps[i].Sweep = append(sweeps[i].Sweep, out[i][j].Exports)
+			out[i][j].Exports = nil
+		}
+	}
+	// the remote verifier: other processes, the items of a batch in the order in which they came into being
+	souts, err := run(sweeps)
+	if err != nil {
+		return nil, err
+	}
+	for i := range souts {
+		if len(souts[i].Sweep) != len(out[i]) {
+			return nil, fmt.Errorf("remote verifier of batch %d: %d results for %d histories", i, len(souts[i].Sweep), len(out[i]))
+		}
+		for j, rs := range souts[i].Sweep {
+			r := &out[i][j]
+			if r.Sc.Type != "history" || r.Inconcl != "" || len(r.Viols) > 0 || len(r.Drift) > 0 {
+				continue
+			}
+			items := hItemsOf(r.Sc.Hist)
+			if len(rs) != len(items) {
+				r.Inconcl = fmt.Sprintf("the remote verifier returned %d results for %d items", len(rs), len(items))
+				continue
+			}
+			for n, od := range rs {
+				r.Remote = append(r.Remote, od[0])
+				sysName := r.Sc.Sys[items[n].Kind-1]
+				diag := fmt.Sprintf("item %d (%s, proved at call %d of a %s history on %s, session of %d bytes in buffer %d (%s)) handed to a verifier in another process - statement, proof and session restored from their bytes %s",
+					n+1, sysName, items[n].Call, r.Sc.Src, strings.Join(r.Sc.Sys, "+"), len(items[n].Step.Sess)*r.Sc.W, items[n].Step.Buf, items[n].Step.How, core.Short(od[1], 160))
+				switch od[0] {
+				case "acc":
+				case "inconcl":
+					r.Inconcl = "remote verifier: " + od[1]
+				case "panic":
+					r.Viols = append(r.Viols, c13Viol{fmt.Sprintf("C10:%s:history:remote-verifier-panics", sysName), "Verify panics on an honest proof under the session it was made for: " + diag})
+				default:
+					r.Viols = append(r.Viols, c13Viol{fmt.Sprintf("C10:%s:history:remote-verifier-rejects", sysName), "Verify returns false on an honest proof under the session it was made for: " + diag})
+				}
+				if od[0] != "acc" {
+					break
+				}
+			}
 		}
 	}
 	return out, nil
+}
+
+type hItemRef struct {
+	Call int
+	Kind int
+	Step hStep
+}
+
+func hItemsOf(h *hHist) []hItemRef {
+	var out []hItemRef
+	for n, st := range h.Steps {
+		if st.Op == "prove" {
+			out = append(out, hItemRef{Call: n + 1, Kind: st.Kind, Step: st})
+		}
+	}
+	return out
 }
 
 // ------------------------------------------------------------------ plan
@@ -1199,48 +1440,47 @@ func hExposes(h *hHist, v string) bool {
 	return false
 }
 
-func c10HistPlan(ctx *core.Ctx, mc hMCOut, sim []hHist) (hPlan, error) {
+type hPlanner struct {
+	ctx   *core.Ctx
+	pairs [][2]int
+	n     int
+}
+
+var hWidths = []struct {
+	W    int
+	Lead bool
+}{{16, false}, {1, false}, {33, true}, {800, false}, {33, false}, {800, true}}
+
+func (p *hPlanner) mk(h *hHist, src string, sys []string, emu string) c10HistScenario {
+	pr := p.pairs[(p.n*7+int(p.ctx.Seed))%len(p.pairs)]
+	p.n++
+	return c10HistScenario{Type: "history", Hist: h, Src: src, Sys: sys, W: hWidths[p.n%len(hWidths)].W, Lead: hWidths[p.n%len(hWidths)].Lead, I: pr[0], J: pr[1], Seed: p.ctx.Seed*1000003 + int64(p.n)*13 + 5, Emu: emu}
+}
+
+func hSpread(par int, lists ...[]c10HistScenario) [][]c10HistScenario {
+	spread := make([][]c10HistScenario, par)
+	i := 0
+	for _, l := range lists {
+		for _, sc := range l {
+			spread[i%par] = append(spread[i%par], sc)
+			i++
+		}
+	}
+	var out [][]c10HistScenario
+	for _, b := range spread {
+		if len(b) > 0 {
+			out = append(out, b)
+		}
+	}
+	return out
+}
+
+// c10PlanSim: the simulated histories: kinds -> systems by their attributes, rotating; the histories on the cheap
+// systems run in ONE child process, the others are spread over par - 1 processes
+func c10PlanSim(ctx *core.Ctx, sim []hHist, par int) (hPlan, error) {
 	var pl hPlan
-	rng := rand.New(rand.NewSource(ctx.Seed*7907 + 1010))
-	pairs := c13Pairs()
-	ws := []int{16, 1, 800}
-	n := 0
-	mk := func(h *hHist, src string, sys []string, emu string) c10HistScenario {
-		p := pairs[(n*7+int(ctx.Seed))%len(pairs)]
-		n++
-		return c10HistScenario{Type: "history", Hist: h, Src: src, Sys: sys, W: ws[n%len(ws)], I: p[0], J: p[1], Seed: ctx.Seed*1000003 + int64(n)*13 + 5, Emu: emu}
-	}
-	byVar := map[string][]int{}
-	for i := range mc.Directed {
-		for _, v := range mc.Directed[i].Exposes {
-			byVar[v] = append(byVar[v], i)
-		}
-	}
-	for _, v := range hVariants {
-		if len(byVar[v]) == 0 {
-			return pl, fmt.Errorf("no directed history exposes variant %s", v)
-		}
-	}
-	// (a) directed histories: every tagged system, every variant
+	pp := &hPlanner{ctx: ctx, pairs: c13Pairs(), n: 5000}
 	var cheap, costly []c10HistScenario
-	for _, name := range hTagged {
-		per := ctx.Pick(1, 6)
-		if hCheap[name] {
-			per = ctx.Pick(8, 60)
-		}
-		for _, v := range hVariants {
-			for r := 0; r < per; r++ {
-				h := &mc.Directed[byVar[v][rng.Intn(len(byVar[v]))]]
-				sc := mk(h, "directed", []string{name}, "")
-				if hCheap[name] {
-					cheap = append(cheap, sc)
-				} else {
-					costly = append(costly, sc)
-				}
-			}
-		}
-	}
-	// (b) simulated histories: kinds -> systems by attributes, rotating
 	nsim := ctx.Pick(90, 1200)
 	if nsim > len(sim) {
 		nsim = len(sim)
@@ -1271,19 +1511,59 @@ func c10HistPlan(ctx *core.Ctx, mc hMCOut, sim []hHist) (hPlan, error) {
 				costlyOne = true
 			}
 		}
-		sc := mk(h, "simulated", sys, "")
+		sc := pp.mk(h, "simulated", sys, "")
 		if costlyOne {
 			costly = append(costly, sc)
 		} else {
 			cheap = append(cheap, sc)
 		}
 	}
-	// (c) handle rows
+	if len(cheap) > 0 {
+		pl.Batches = append(pl.Batches, cheap)
+	}
+	pl.Batches = append(pl.Batches, hSpread(par-1, costly)...)
+	return pl, nil
+}
+
+// c10PlanMC: the directed histories (every tagged system x every defect variant), the handle catalogue, the self test
+func c10PlanMC(ctx *core.Ctx, mc hMCOut, par int) (hPlan, error) {
+	var pl hPlan
+	rng := rand.New(rand.NewSource(ctx.Seed*7907 + 1010))
+	pp := &hPlanner{ctx: ctx, pairs: c13Pairs()}
+	byVar := map[string][]int{}
+	for i := range mc.Directed {
+		for _, v := range mc.Directed[i].Exposes {
+			byVar[v] = append(byVar[v], i)
+		}
+	}
+	for _, v := range hVariants {
+		if len(byVar[v]) == 0 {
+			return pl, fmt.Errorf("no directed history exposes variant %s", v)
+		}
+	}
+	var cheap, costly []c10HistScenario
+	for _, name := range hTagged {
+		per := ctx.Pick(1, 6)
+		if hCheap[name] {
+			per = ctx.Pick(8, 60)
+		}
+		for _, v := range hVariants {
+			for r := 0; r < per; r++ {
+				h := &mc.Directed[byVar[v][rng.Intn(len(byVar[v]))]]
+				sc := pp.mk(h, "directed", []string{name}, "")
+				if hCheap[name] {
+					cheap = append(cheap, sc)
+				} else {
+					costly = append(costly, sc)
+				}
+			}
+		}
+	}
+	// handle rows: all of them; in the quick tier 14 of the 64 per curve for Bob's proof with check, every pair of roles separated
 	var rows []c10HistScenario
 	perSys := map[string]int{}
 	covered := map[string]bool{}
-	idx := rng.Perm(len(mc.Rows))
-	for _, i := range idx {
+	for _, i := range rng.Perm(len(mc.Rows)) {
 		row := &mc.Rows[i]
 		k := row.Sys + "|" + row.Curve
 		limit := 1 << 30
@@ -1303,28 +1583,34 @@ func c10HistPlan(ctx *core.Ctx, mc hMCOut, sim []hHist) (hPlan, error) {
 		for _, d := range row.Distinct {
 			covered[fmt.Sprint(k, d)] = true
 		}
-		p := pairs[(n*7+int(ctx.Seed))%len(pairs)]
-		n++
-		rows = append(rows, c10HistScenario{Type: "handles", Row: row, I: p[0], J: p[1], Seed: ctx.Seed*1000003 + int64(n)*13 + 7})
+		pr := pp.pairs[(pp.n*7+int(ctx.Seed))%len(pp.pairs)]
+		pp.n++
+		rows = append(rows, c10HistScenario{Type: "handles", Row: row, I: pr[0], J: pr[1], Seed: ctx.Seed*1000003 + int64(pp.n)*13 + 7})
 	}
-	sort.SliceStable(rows, func(a, b int) bool { return hCheap[rows[a].Row.Sys] && !hCheap[rows[b].Row.Sys] })
-	// batches: the cheap ones in one process each kind, the costly ones spread round robin
-	par := pcWorkers()
-	pl.Batches = append(pl.Batches, cheap)
-	spread := make([][]c10HistScenario, par)
-	for i, sc := range append(costly, rows...) {
-		spread[i%par] = append(spread[i%par], sc)
-	}
-	for _, b := range spread {
-		if len(b) > 0 {
-			pl.Batches = append(pl.Batches, b)
+	var rowsCheap, rowsCostly []c10HistScenario
+	for _, r := range rows {
+		if hCheap[r.Row.Sys] {
+			rowsCheap = append(rowsCheap, r)
+		} else {
+			rowsCostly = append(rowsCostly, r)
 		}
 	}
-	// (d) self test: emulated variants around the Schnorr proof
+	pl.Batches = append(pl.Batches, append(cheap, rowsCheap...))
+	pl.Batches = append(pl.Batches, hSpread(par-1, costly, rowsCostly)...)
+	// self test: emulated variants around the Schnorr proof
 	for _, v := range hVariants {
-		for r := 0; r < 3; r++ {
-			pl.SelfTest = append(pl.SelfTest, mk(&mc.Directed[byVar[v][rng.Intn(len(byVar[v]))]], "directed", []string{"sch"}, v))
+		for r := 0; r < 4; r++ {
+			pl.SelfTest = append(pl.SelfTest, pp.mk(&mc.Directed[byVar[v][rng.Intn(len(byVar[v]))]], "directed", []string{"sch"}, v))
 		}
+	}
+	return pl, nil
+}
+
+// c10PlanSelfSim: the simulated histories all of whose kinds take a session, on the Schnorr proof, under every emulated variant
+func c10PlanSelfSim(ctx *core.Ctx, sim []hHist) []c10HistScenario {
+	pp := &hPlanner{ctx: ctx, pairs: c13Pairs(), n: 9000}
+	var out []c10HistScenario
+	for _, v := range hVariants {
 		cnt := 0
 		for i := range sim {
 			h := &sim[i]
@@ -1339,13 +1625,13 @@ func c10HistPlan(ctx *core.Ctx, mc hMCOut, sim []hHist) (hPlan, error) {
 			for k := range sys {
 				sys[k] = "sch"
 			}
-			pl.SelfTest = append(pl.SelfTest, mk(h, "simulated", sys, v))
+			out = append(out, pp.mk(h, "simulated", sys, v))
 			if cnt++; cnt >= 4 {
 				break
 			}
 		}
 	}
-	return pl, nil
+	return out
 }
 
 // ------------------------------------------------------------------ the phase as C10 runs it
@@ -1365,31 +1651,53 @@ func c10HistPhase(ctx *core.Ctx, keys []eckg.LocalPartySaveData) *hPhase {
 	ph := &hPhase{}
 	t0 := time.Now()
 	defer func() { ph.Wall = time.Since(t0).Seconds() }()
-	var simErr, mcErr error
+	par := pcWorkers() / 2
+	if par < 2 {
+		par = 2
+	}
+	// pipeline 1: random histories (-simulate) -> child processes
+	var simErr error
+	var simPlan hPlan
+	var simResults [][]c10HistResult
 	done := make(chan struct{})
 	go func() {
 		defer close(done)
-		ph.Sim, ph.SimRes, simErr = c10HistSim(ctx.Seed*131+10, ctx.Pick(120, 1500), 7)
+		if ph.Sim, ph.SimRes, simErr = c10HistSim(ctx.Seed*131+10, ctx.Pick(100, 1300), 7); simErr != nil {
+			simErr = fmt.Errorf("ProofsHist.tla (-simulate): %v", simErr)
+			return
+		}
+		if simPlan, simErr = c10PlanSim(ctx, ph.Sim, par); simErr != nil {
+			return
+		}
+		simResults, simErr = c10HistRunAll(simPlan.Batches, par)
 	}()
-	ph.MC, mcErr = c10HistMC(ctx.Thorough())
-	<-done
-	if mcErr != nil {
-		ph.Err = fmt.Errorf("ProofsHist.tla (exhaustive): %v", mcErr)
-		return ph
-	}
-	if simErr != nil {
-		ph.Err = fmt.Errorf("ProofsHist.tla (-simulate): %v", simErr)
-		return ph
-	}
+	// pipeline 2: exhaustive run -> directed histories, handle catalogue -> child processes
 	var err error
-	if ph.Plan, err = c10HistPlan(ctx, ph.MC, ph.Sim); err != nil {
+	ph.MC, err = c10HistMC(ctx.Thorough())
+	if err == nil {
+		ph.Plan, err = c10PlanMC(ctx, ph.MC, par)
+	} else {
+		err = fmt.Errorf("ProofsHist.tla (exhaustive): %v", err)
+	}
+	if err == nil {
+		ph.Results, err = c10HistRunAll(ph.Plan.Batches, par)
+	}
+	<-done
+	if ph.MC.WideDone != nil {
+		if e := <-ph.MC.WideDone; e != nil && err == nil {
+			err = fmt.Errorf("ProofsHist.tla (exhaustive, two buffers): %v", e)
+		}
+	}
+	if err == nil {
+		err = simErr
+	}
+	if err != nil {
 		ph.Err = err
 		return ph
 	}
-	if ph.Results, err = c10HistRunAll(ph.Plan.Batches, pcWorkers()); err != nil {
-		ph.Err = err
-		return ph
-	}
+	ph.Plan.Batches = append(ph.Plan.Batches, simPlan.Batches...)
+	ph.Results = append(ph.Results, simResults...)
+	ph.Plan.SelfTest = append(ph.Plan.SelfTest, c10PlanSelfSim(ctx, ph.Sim)...)
 	// self test in this process (the emulation's state is the harness's own)
 	ph.SelfTest = make([]c10HistResult, len(ph.Plan.SelfTest))
 	sem := make(chan struct{}, pcWorkers())
@@ -1419,11 +1727,17 @@ func c10HistJudge(ctx *core.Ctx, cov *core.Cov, ph *hPhase) error {
 		}
 	}
 	cov.AddMC(ph.MC.Res.Distinct, ph.MC.Res.Generated)
+	if ph.MC.Wide != nil {
+		cov.AddMC(ph.MC.Wide.Distinct, ph.MC.Wide.Generated)
+		cov.Set("hist_mc_two_buffers", map[string]any{"distinct": ph.MC.Wide.Distinct, "generated": ph.MC.Wide.Generated, "wall_s": ph.MC.Wide.Wall})
+	}
 	bySrc := map[string]int{}
 	bySys := map[string]int{}
 	byFeat := map[string]int{}
 	expo := map[string]int{}
 	var proves, verifies, inplace, slot, wire, drifts, handleRows, handleDrift int
+	cpu := 0.0
+	cpuBy := map[string]float64{}
 	sampled := map[string]bool{}
 	for _, batch := range ph.Results {
 		for i := range batch {
@@ -1436,6 +1750,12 @@ func c10HistJudge(ctx *core.Ctx, cov *core.Cov, ph *hPhase) error {
 			}
 			cov.Case(r.Sc.key(), true)
 			proves += r.Proves
+			cpu += r.CPU
+			if r.Sc.Type == "handles" {
+				cpuBy["handles/"+r.Sc.Row.Sys] += r.CPU
+			} else {
+				cpuBy[r.Sc.Src+"/"+strings.Join(r.Sc.Sys, "+")] += r.CPU
+			}
 			verifies += r.Verifies
 			inplace += r.InPlace
 			slot += r.Slot
@@ -1490,8 +1810,8 @@ func c10HistJudge(ctx *core.Ctx, cov *core.Cov, ph *hPhase) error {
 			ctx.Note("self test of the history binding disagrees with the model (variant %s): consistent with the violation(s) reported above", r.Sc.Emu)
 			continue
 		}
-		stSteps += r.Verifies
-		for _, o := range r.Outs {
+		stSteps += r.Verifies + len(r.Remote)
+		for _, o := range append(append([]string{}, r.Outs...), r.Remote...) {
 			if o == "rej" {
 				rejSeen[r.Sc.Emu]++
 			}
@@ -1526,5 +1846,7 @@ func c10HistJudge(ctx *core.Ctx, cov *core.Cov, ph *hPhase) error {
 	cov.Set("hist_selftest_verify_steps_agreeing", stSteps)
 	cov.Set("hist_selftest_rejections_by_variant", rejSeen)
 	cov.Set("hist_phase_wall_s", ph.Wall)
+	cov.Set("hist_replay_cpu_s", cpu)
+	cov.Set("hist_replay_cpu_s_by_kind", cpuBy)
 	return nil
 }
